@@ -63,6 +63,10 @@ Qed.
 Definition starts_with (a s : str) : bool :=
   match prefix a s with Some _ => true | None => false end.
 
+(* substring test *)
+Fixpoint contains (sub s : str) : bool :=
+  starts_with sub s || match s with [] => false | _ :: r => contains sub r end.
+
 (* join / split on a single separator character (Python "/".join, str.split("/")) *)
 Fixpoint join (sep : str) (l : list str) : str :=
   match l with
